@@ -295,7 +295,7 @@ func checkC03(w *World, r *Report) {
 				}
 				other := 0
 				for _, c := range bc {
-					if c.Callee != codeFn && c.Callee.Name() != "GetProgBldr" {
+					if c.Callee != codeFn && nm(c.Callee) != "GetProgBldr" {
 						other++
 					}
 				}
